@@ -349,6 +349,11 @@ class C09:
                 add("pk", bytes(y), None, "random-point")
                 z = bytearray(xy); z[rng.randrange(192)] ^= 1 << rng.randrange(8)
                 add("pkxy", bytes(z), None, "xy-flip")
+                add("pkxy", pyc.g2_uncompressed_on_curve(rng), True, "on-curve-outside-subgroup")
+                gx, gy = pyc.g1_uncompressed_on_curve(rng)
+                cx = bytearray(gx.to_bytes(48, "big")); cx[0] |= 0x80 | (0x20 if gy > (pyc.FP - 1) // 2 else 0)
+                add("sig", bytes(cx) + sig[48:], True, "on-curve-outside-subgroup"); add("commit", bytes(cx) + cwp[48:], True, "on-curve-outside-subgroup")
+                add("proof", pr[:48] + bytes(cx) + pr[96:], True, "on-curve-outside-subgroup")
             for flag in (0x00, 0x20, 0x40, 0x60, 0xe0, 0xa0):
                 add("sig", bytes([(sig[0] & 0x1f) | flag]) + sig[1:], None, "flag-mangle")
                 add("pk", bytes([(pk[0] & 0x1f) | flag]) + pk[1:], None, "flag-mangle")
